@@ -502,9 +502,62 @@ def rust_runner(pid, tier, seed, rundir, cfg, search_more=False):
     return res
 
 
+def bb_runner(pid, tier, seed, rundir, cfg, search_more=False):
+    """Black-box correspondence: a Python module drives the REAL `copia` binary (built from the tree
+    under test) and the Lean model driver; see tools/bb_*.py."""
+    import importlib
+    res = {"broken": [], "violations": [], "notes": []}
+    okc, outc = cargo_build_cli()
+    if not okc:
+        res["broken"].append(f"{pid}/corr/cli-build: " + short(outc[-1500:], 1500))
+        return res
+    okh, outh = cargo_build_harness()     # helper subcommands (blake3 of byte strings, …)
+    if not okh:
+        res["broken"].append(f"{pid}/corr/harness-build: " + short(outh[-1500:], 1500))
+        return res
+    mod = importlib.import_module(cfg["bb_module"])
+
+    def model_run(ops_path):
+        mp = ops_path[:-7] + "model.txt" if ops_path.endswith("ops.txt") else ops_path + ".model"
+        okm, err = run_model(ops_path, mp)
+        if not okm:
+            res["broken"].append(f"{pid}/corr/model-driver: " + short(err[-500:], 500))
+            return []
+        return open(mp).read().split("\n")[:-1]
+
+    seeds = [seed, seed + 1000003] if search_more else [seed]
+    for k, s in enumerate(seeds):
+        d = os.path.join(rundir, f"s{k}")
+        os.makedirs(d, exist_ok=True)
+        try:
+            r = mod.run(pid, tier, s, d, model_run)
+        except Exception as e:  # the harness itself failed: report as a broken correspondence, never hide it
+            import traceback
+            res["broken"].append(f"{pid}/corr/bb-harness-exception: {e!r} " + short(traceback.format_exc()[-1200:], 1200))
+            return res
+        vs = r.pop("violations", [])
+        bykey = {}
+        for key, desc, rep in vs:
+            bykey.setdefault(key, []).append((desc, rep))
+        for key, lst in bykey.items():
+            desc, rep = lst[0]
+            res["violations"].append((key, f"{desc} [{len(lst)} case(s) with this key]", dict(rep, seed=s, tier=tier)))
+        res["broken"] += r.pop("broken", [])
+        res["notes"] += r.pop("notes", [])
+        if k == 0:
+            res.update(r)
+        else:
+            for kk in ("evaluations", "n_disagreements", "n_oracle_failures"):
+                res[kk] = res.get(kk, 0) + r.get(kk, 0)
+        if res["violations"] or not res["broken"]:
+            break
+    shutil.rmtree("/var/tmp/copia-bbox", ignore_errors=True)
+    return res
+
+
 from props import PROPS  # noqa: E402  (per-property configuration)
 
-RUNNERS = {"rust": rust_runner}
+RUNNERS = {"rust": rust_runner, "bb": bb_runner}
 
 
 def main(argv):
